@@ -241,3 +241,25 @@ if __name__ == "__main__":
     import json
 
     print(json.dumps(extract(), indent=1))
+
+
+def diff_rows(model_tables):
+    """rows of the source tables that differ from the model's (`driver op tables`): [("defaults", fn) | ("kwdicts", cls) |
+    ("checks", cls) | ("woodbury", "")] - used by the adapters' search() to aim the failing-input search at the function whose row changed"""
+    t = extract()
+    out = []
+    md = {e[0]: [tuple(p) for p in e[1]] for e in model_tables["defaults"]}
+    for n, d in t["defaults"]:
+        if md.get(n) != [tuple(p) for p in d]:
+            out.append(("defaults", n))
+    mk = {e[0]: [tuple(p) for p in e[2]] for e in model_tables["kwdicts"]}
+    for c, _, d in t["kwdicts"]:
+        if mk.get(c) != [tuple(p) for p in d]:
+            out.append(("kwdicts", c))
+    mc = {e[0]: [(c[0], c[1], tuple(c[2]), c[3], c[4]) for c in e[1]] for e in model_tables["checks"]}
+    for c, cs in t["checks"]:
+        if mc.get(c) != [(g, sj, tuple(cl), tx, e) for g, sj, cl, tx, e in cs]:
+            out.append(("checks", c))
+    if [tuple(a) for a in model_tables["woodbury"]] != [tuple(a) for a in t["woodbury"]] or tuple(model_tables["woodbury_bind"]) != tuple(t["woodbury_bind"]):
+        out.append(("woodbury", ""))
+    return out
